@@ -47,7 +47,12 @@ Inductive case :=
    (as app.go does): blocks through ProcessDeposits, single transactions through
    DecodeDepositEvent against the map's values; per step what came back and a deep snapshot of the
    handler's resources / fee address after it.  rs: the resources in iteration order (ascending id) *)
-| Seq (rs : list resource) (faddr : string) (steps : list sobs).
+| Seq (rs : list resource) (faddr : string) (steps : list sobs)
+(* round 5 - the same, but every block went through the real HandleEvents and [OBlock] holds what ARRIVED ON
+   THE MESSAGE CHANNEL of the handler (all batches, read until no goroutine started during the call was
+   left): per transaction the message attributed to it; stray = a message that belongs to no transaction of
+   the block or a second one for the same transaction.  p1: the case ran under GOMAXPROCS(1). *)
+| SeqEv (p1 : bool) (rs : list resource) (faddr : string) (steps : list sobs).
 
 Definition dec_eqb (a b : dec) : bool :=
   match a, b with
@@ -108,6 +113,8 @@ Definition agree (c : case) : bool :=
   | NonceC h t n1 n2 => N.eqb (nonce h t) n1 && N.eqb (nonce h t) n2
   | Sha m d => bytes_eqb (sha256 (unhex m)) (unhex d)
   | Seq rs f steps => forallb (sobs_agree rs f) steps
+  (* what arrives is what ProcessDeposits made of the block (Model/C15.sent_batches, C15_events_no_loss_no_dup) *)
+  | SeqEv _ rs f steps => forallb (sobs_agree rs f) steps
   end.
 
 Definition judge (c : case) : bool :=
@@ -119,6 +126,9 @@ Definition judge (c : case) : bool :=
   | NonceC h t n1 n2 => N.eqb n1 n2
   | Sha _ _ => true
   | Seq rs f steps => seq_ok (rs, f) steps
+  (* a paying transaction whose message does not arrive is not treated as a deposit; a message that arrives
+     twice is a deposit that does not exist: the same per-transaction specification *)
+  | SeqEv _ rs f steps => seq_ok (rs, f) steps
   end.
 
 (* branch tag of the model (taken with the exact conversion [fun s => s], which by C15_sat_exact is
@@ -136,6 +146,7 @@ Definition tag (c : case) : N :=
   | NonceC _ _ _ _ => 20%N
   | Sha _ _ => 30%N
   | Seq rs _ steps => (40 + N.min 9 (N.of_nat (List.length steps)))%N
+  | SeqEv p1 _ _ steps => ((if p1 then 60 else 50) + N.min 9 (N.of_nat (List.length steps)))%N
   end.
 
 Definition check_all := check_cases agree judge tag.
